@@ -11,4 +11,5 @@ def check(run, replay=None):
                 "values (to_json_string), decoded back (from_json) by every part and the contract-level type; non-trivial = "
                 "distinct (program, method, values) or distinct document")
     return msgprops.check(run, "C01", "Props/C01", THEOREMS, {"c01": True, "decode": True}, replay,
-                          translated=("Props/C01T", ["c01_translated_one_published_name_per_variant"]))
+                          translated=[("Props/C01T", ["c01_translated_one_published_name_per_variant"]),
+                                      ("Props/C01V", ["c01_translated_variants_of_one_kind", "c01_translated_selected_methods"])])
